@@ -106,11 +106,55 @@ def join_replay(spec, Op, cls):
     return False
 
 
+def reduce_replay(spec, Op, cls):
+    """Sum / Mean: x.grad after op(x, axis, keepdims).backward(g) against g broadcast back over the reduced axes (divided by their extent
+    for Mean), on small shapes; a backward that raises after an accepted forward fails too."""
+    rank = spec["rank"]
+    axis = ast.literal_eval(spec["axis"])
+    keepdims = ast.literal_eval(spec["keepdims"])
+    rng = np.random.default_rng(0)
+    tried = 0
+    for dims in itertools.product((2, 3, 1, 4), repeat=rank):
+        x = rng.normal(size=dims)
+        npf = np.sum if cls == "Sum" else np.mean
+        try:
+            ref = npf(x, axis=axis, keepdims=keepdims)
+        except Exception:
+            continue
+        tried += 1
+        t = mg.tensor(x)
+        try:
+            y = Tensor._op(Op, t, op_kwargs=dict(axis=axis, keepdims=keepdims))
+            if y.shape != np.shape(ref) or not np.allclose(y.data, ref):
+                print(json.dumps(dict(confirmed=True, op=spec["op"], shape=list(dims), axis=repr(axis), keepdims=keepdims, what="forward differs from NumPy")))
+                return
+            g = rng.normal(size=y.shape)
+            y.backward(g)
+            if keepdims or rank == 0 or axis == ():
+                gk = np.asarray(g)
+            else:
+                axes = tuple(range(rank)) if axis is None else ((axis,) if isinstance(axis, int) else tuple(axis))
+                gk = np.expand_dims(np.asarray(g), axes)
+            e = np.broadcast_to(gk, dims) / (x.size / max(y.size, 1) if cls == "Mean" else 1.0)
+            got = t.grad
+            if got is None or got.shape != tuple(dims) or not np.allclose(got, e):
+                print(json.dumps(dict(confirmed=True, op=spec["op"], shape=list(dims), axis=repr(axis), keepdims=keepdims, expected=np.asarray(e).tolist(), got=None if got is None else np.asarray(got).tolist(),
+                                      how=f"Tensor._op({cls}, x{tuple(dims)}, op_kwargs=dict(axis={axis!r}, keepdims={keepdims})).backward(g); x.grad vs g broadcast over the reduced axes")))
+                return
+        except Exception as ex:
+            print(json.dumps(dict(confirmed=True, op=spec["op"], shape=list(dims), axis=repr(axis), keepdims=keepdims, raised=f"{type(ex).__name__}: {ex}")))
+            return
+    print(json.dumps(dict(confirmed=False, tried=tried, note="no failing input among the configurations tried")))
+
+
 def main():
     spec = json.loads(sys.argv[1])
     modname, cls = spec["op"].split(":")
     Op = getattr(importlib.import_module(modname), cls)
     rank = spec["rank"]
+    if cls in ("Sum", "Mean"):
+        reduce_replay(spec, Op, cls)
+        return
     if cls in ("Concatenate", "Stack"):
         join_replay(spec, Op, cls)
         return
